@@ -90,4 +90,76 @@ theorem skel_newClaimInjector_ok : skel_newClaimInjector = ([
   "if claim == \"\"",
   "header.Add"] : List String) := rfl
 
+theorem flags_headers_ok : flags_headers = ([
+  "String basic-auth-password = \"\"",
+  "Bool pass-access-token = false",
+  "Bool pass-authorization-header = false",
+  "Bool pass-basic-auth = true",
+  "Bool pass-user-headers = true",
+  "Bool prefer-email-to-user = false",
+  "Bool set-authorization-header = false",
+  "Bool set-basic-auth = false",
+  "Bool set-xauthrequest = false",
+  "Bool skip-auth-strip-headers = true"] : List String) := rfl
+
+theorem optionTags_headers_ok : optionTags_headers = ([
+  "basic-auth-password basic_auth_password LegacyHeaders.BasicAuthPassword string",
+  "pass-access-token pass_access_token LegacyHeaders.PassAccessToken bool",
+  "pass-authorization-header pass_authorization_header LegacyHeaders.PassAuthorization bool",
+  "pass-basic-auth pass_basic_auth LegacyHeaders.PassBasicAuth bool",
+  "pass-user-headers pass_user_headers LegacyHeaders.PassUserHeaders bool",
+  "prefer-email-to-user prefer_email_to_user LegacyHeaders.PreferEmailToUser bool",
+  "set-authorization-header set_authorization_header LegacyHeaders.SetAuthorization bool",
+  "set-basic-auth set_basic_auth LegacyHeaders.SetBasicAuth bool",
+  "set-xauthrequest set_xauthrequest LegacyHeaders.SetXAuthRequest bool",
+  "skip-auth-strip-headers skip_auth_strip_headers LegacyHeaders.SkipAuthStripHeaders bool"] : List String) := rfl
+
+theorem cfgText_legacyHeaders_ok : cfgText_legacyHeaders = ([
+  "func LegacyHeaders.convert {",
+  "{ return l.getRequestHeaders(), l.getResponseHeaders() }",
+  "func LegacyHeaders.getRequestHeaders {",
+  "{ requestHeaders := []Header{} if l.PassBasicAuth && l.BasicAuthPassword != \"\" { requestHeaders = append(requestHeaders, getBasicAuthHeader(l.PreferEmailToUser, l.BasicAuthPassword)) } if l.PassBasicAuth || l.PassUserHeaders { requestHeaders = append(requestHeaders, getPassUserHeaders(l.PreferEmailToUser)...) requestHeaders = append(requestHeaders, getPreferredUsernameHeader()) } if l.PassAccessToken { requestHeaders = append(requestHeaders, getPassAccessTokenHeader()) } if l.PassAuthorization { requestHeaders = append(requestHeaders, getAuthorizationHeader()) } for i := range requestHeaders { requestHeaders[i].PreserveRequestValue = !l.SkipAuthStripHeaders } return requestHeaders }",
+  "func LegacyHeaders.getResponseHeaders {",
+  "{ responseHeaders := []Header{} if l.SetXAuthRequest { responseHeaders = append(responseHeaders, getXAuthRequestHeaders()...) if l.PassAccessToken { responseHeaders = append(responseHeaders, getXAuthRequestAccessTokenHeader()) } } if l.SetBasicAuth { responseHeaders = append(responseHeaders, getBasicAuthHeader(l.PreferEmailToUser, l.BasicAuthPassword)) } if l.SetAuthorization { responseHeaders = append(responseHeaders, getAuthorizationHeader()) } return responseHeaders }",
+  "func getBasicAuthHeader {",
+  "{ claim := \"user\" if preferEmailToUser { claim = \"email\" } return Header{ Name: \"Authorization\", Values: []HeaderValue{ { ClaimSource: &ClaimSource{ Claim: claim, Prefix: \"Basic \", BasicAuthPassword: &SecretSource{ Value: []byte(basicAuthPassword), }, }, }, }, } }",
+  "func getPassUserHeaders {",
+  "{ headers := []Header{ { Name: \"X-Forwarded-Groups\", Values: []HeaderValue{ { ClaimSource: &ClaimSource{ Claim: \"groups\", }, }, }, }, } if preferEmailToUser { return append(headers, Header{ Name: \"X-Forwarded-User\", Values: []HeaderValue{ { ClaimSource: &ClaimSource{ Claim: \"email\", }, }, }, }, ) } return append(headers, Header{ Name: \"X-Forwarded-User\", Values: []HeaderValue{ { ClaimSource: &ClaimSource{ Claim: \"user\", }, }, }, }, Header{ Name: \"X-Forwarded-Email\", Values: []HeaderValue{ { ClaimSource: &ClaimSource{ Claim: \"email\", }, }, }, }, ) }",
+  "func getPassAccessTokenHeader {",
+  "{ return Header{ Name: \"X-Forwarded-Access-Token\", Values: []HeaderValue{ { ClaimSource: &ClaimSource{ Claim: \"access_token\", }, }, }, } }",
+  "func getAuthorizationHeader {",
+  "{ return Header{ Name: \"Authorization\", Values: []HeaderValue{ { ClaimSource: &ClaimSource{ Claim: \"id_token\", Prefix: \"Bearer \", }, }, }, } }",
+  "func getPreferredUsernameHeader {",
+  "{ return Header{ Name: \"X-Forwarded-Preferred-Username\", Values: []HeaderValue{ { ClaimSource: &ClaimSource{ Claim: \"preferred_username\", }, }, }, } }",
+  "func getXAuthRequestHeaders {",
+  "{ headers := []Header{ { Name: \"X-Auth-Request-User\", Values: []HeaderValue{ { ClaimSource: &ClaimSource{ Claim: \"user\", }, }, }, }, { Name: \"X-Auth-Request-Email\", Values: []HeaderValue{ { ClaimSource: &ClaimSource{ Claim: \"email\", }, }, }, }, { Name: \"X-Auth-Request-Preferred-Username\", Values: []HeaderValue{ { ClaimSource: &ClaimSource{ Claim: \"preferred_username\", }, }, }, }, { Name: \"X-Auth-Request-Groups\", Values: []HeaderValue{ { ClaimSource: &ClaimSource{ Claim: \"groups\", }, }, }, }, } return headers }",
+  "func getXAuthRequestAccessTokenHeader {",
+  "{ return Header{ Name: \"X-Auth-Request-Access-Token\", Values: []HeaderValue{ { ClaimSource: &ClaimSource{ Claim: \"access_token\", }, }, }, } }"] : List String) := rfl
+
+theorem cfgText_loader_ok : cfgText_loader = ([
+  "func loadConfiguration {",
+  "{ if alphaConfig != \"\" { logger.Printf(\"WARNING: You are using alpha configuration. The structure in this configuration file may change without notice. You MUST remove conflicting options from your existing configuration.\") return loadAlphaOptions(config, alphaConfig, extraFlags, args) } return loadLegacyOptions(config, extraFlags, args) }",
+  "func loadLegacyOptions {",
+  "{ optionsFlagSet := options.NewLegacyFlagSet() optionsFlagSet.AddFlagSet(extraFlags) if err := optionsFlagSet.Parse(args); err != nil { return nil, fmt.Errorf(\"failed to parse flags: %v\", err) } legacyOpts := options.NewLegacyOptions() if err := options.Load(config, optionsFlagSet, legacyOpts); err != nil { return nil, fmt.Errorf(\"failed to load config: %v\", err) } opts, err := legacyOpts.ToOptions() if err != nil { return nil, fmt.Errorf(\"failed to convert config: %v\", err) } return opts, nil }",
+  "func loadAlphaOptions {",
+  "{ opts, err := loadOptions(config, extraFlags, args) if err != nil { return nil, fmt.Errorf(\"failed to load core options: %v\", err) } alphaOpts := &options.AlphaOptions{} if err := options.LoadYAML(alphaConfig, alphaOpts); err != nil { return nil, fmt.Errorf(\"failed to load alpha options: %v\", err) } alphaOpts.MergeInto(opts) return opts, nil }",
+  "func loadOptions {",
+  "{ optionsFlagSet := options.NewFlagSet() optionsFlagSet.AddFlagSet(extraFlags) if err := optionsFlagSet.Parse(args); err != nil { return nil, fmt.Errorf(\"failed to parse flags: %v\", err) } opts := options.NewOptions() if err := options.Load(config, optionsFlagSet, opts); err != nil { return nil, fmt.Errorf(\"failed to load config: %v\", err) } return opts, nil }",
+  "func Load {",
+  "{ v := viper.New() v.SetConfigFile(configFileName) v.SetConfigType(\"toml\") v.SetEnvPrefix(\"OAUTH2_PROXY\") v.AutomaticEnv() v.SetTypeByDefaultValue(true) if configFileName != \"\" { err := v.ReadInConfig() if err != nil { return fmt.Errorf(\"unable to load config file: %w\", err) } } err := registerFlags(v, \"\", flagSet, into) if err != nil { return fmt.Errorf(\"unable to register flags: %w\", err) } err = v.UnmarshalExact(into, decodeFromCfgTag) if err != nil { return fmt.Errorf(\"error unmarshalling config: %w\", err) } return nil }",
+  "func registerFlags {",
+  "{ val := reflect.ValueOf(options) var typ reflect.Type if val.Kind() == reflect.Ptr { typ = val.Elem().Type() } else { typ = val.Type() } for i := 0; i < typ.NumField(); i++ { field := typ.Field(i) fieldV := reflect.Indirect(val).Field(i) fieldName := strings.Join([]string{prefix, field.Name}, \".\") cfgName := field.Tag.Get(\"cfg\") if cfgName == \",internal\" { continue } if isUnexported(field.Name) { continue } if field.Type.Kind() == reflect.Struct { if cfgName != \",squash\" { return fmt.Errorf(\"field %q does not have required cfg tag: `,squash`\", fieldName) } err := registerFlags(v, fieldName, flagSet, fieldV.Interface()) if err != nil { return err } continue } flagName := field.Tag.Get(\"flag\") if flagName == \"\" || cfgName == \"\" { return fmt.Errorf(\"field %q does not have required tags (cfg, flag)\", fieldName) } if flagSet == nil { return fmt.Errorf(\"flagset cannot be nil\") } f := flagSet.Lookup(flagName) if f == nil { return fmt.Errorf(\"field %q does not have a registered flag\", flagName) } err := v.BindPFlag(cfgName, f) if err != nil { return fmt.Errorf(\"error binding flag for field %q: %w\", fieldName, err) } } return nil }",
+  "func LoadYAML {",
+  "{ buffer, err := loadAndParseYaml(configFileName) if err != nil { return err } if err := yaml.UnmarshalStrict(buffer, into, yaml.DisallowUnknownFields); err != nil { return fmt.Errorf(\"error unmarshalling config: %w\", err) } return nil }",
+  "func loadAndParseYaml {",
+  "{ if configFileName == \"\" { return nil, errors.New(\"no configuration file provided\") } unparsedBuffer, err := os.ReadFile(configFileName) if err != nil { return nil, fmt.Errorf(\"unable to load config file: %w\", err) } buffer, err := envsubst.Bytes(unparsedBuffer) if err != nil { return nil, fmt.Errorf(\"error in substituting env variables : %w\", err) } return buffer, nil }",
+  "func AlphaOptions.MergeInto {",
+  "{ opts.UpstreamServers = a.UpstreamConfig opts.InjectRequestHeaders = a.InjectRequestHeaders opts.InjectResponseHeaders = a.InjectResponseHeaders opts.Server = a.Server opts.MetricsServer = a.MetricsServer opts.Providers = a.Providers }",
+  "func LegacyOptions.ToOptions {",
+  "{ upstreams, err := l.LegacyUpstreams.convert() if err != nil { return nil, fmt.Errorf(\"error converting upstreams: %v\", err) } l.Options.UpstreamServers = upstreams l.Options.InjectRequestHeaders, l.Options.InjectResponseHeaders = l.LegacyHeaders.convert() l.Options.Server, l.Options.MetricsServer = l.LegacyServer.convert() l.Options.LegacyPreferEmailToUser = l.LegacyHeaders.PreferEmailToUser providers, err := l.LegacyProvider.convert() if err != nil { return nil, fmt.Errorf(\"error converting provider: %v\", err) } l.Options.Providers = providers return &l.Options, nil }",
+  "func NewLegacyOptions {",
+  "{ return &LegacyOptions{ LegacyUpstreams: LegacyUpstreams{ PassHostHeader: true, ProxyWebSockets: true, FlushInterval: DefaultUpstreamFlushInterval, Timeout: DefaultUpstreamTimeout, }, LegacyHeaders: LegacyHeaders{ PassBasicAuth: true, PassUserHeaders: true, SkipAuthStripHeaders: true, }, LegacyServer: LegacyServer{ HTTPAddress: \"127.0.0.1:4180\", HTTPSAddress: \":443\", }, LegacyProvider: LegacyProvider{ ProviderType: \"google\", AzureTenant: \"common\", ApprovalPrompt: \"force\", UserIDClaim: \"email\", OIDCEmailClaim: \"email\", OIDCGroupsClaim: \"groups\", OIDCAudienceClaims: []string{\"aud\"}, OIDCExtraAudiences: []string{}, InsecureOIDCSkipNonce: true, }, Options: *NewOptions(), } }",
+  "func NewOptions {",
+  "{ return &Options{ ProxyPrefix: \"/oauth2\", Providers: providerDefaults(), PingPath: \"/ping\", ReadyPath: \"/ready\", RealClientIPHeader: \"X-Real-IP\", ForceHTTPS: false, Cookie: cookieDefaults(), Session: sessionOptionsDefaults(), Templates: templatesDefaults(), SkipAuthPreflight: false, Logging: loggingDefaults(), } }"] : List String) := rfl
+
 end O2P.Expect.C07
